@@ -77,7 +77,7 @@ CapsAll   == {20, 36, 45, 50, 75, 100, 150, 225, 275, 300}
 CapChoicesQuick(s) ==
     IF s = "jpl" THEN {<<45, 150>>, <<20, 75>>} ELSE {<<c>> : c \in CapsQuick}
 CapChoicesAll(s) ==
-    IF s = "jpl" THEN {<<45, 150>>, <<20, 50>>, <<100, 275>>}
+    IF s = "jpl" THEN {<<45, 150>>, <<20, 50>>, <<75, 225>>, <<100, 275>>}
     ELSE {<<c>> : c \in CapsAll}
 CapChoicesGen(s) ==
     CASE s = "jpl" -> {<<45, 150>>} [] s = "caltech" -> {<<150>>, <<50>>}
